@@ -998,6 +998,51 @@ func genCase(t *rapid.T) Case {
 			c.Direct = rapid.IntRange(-1, 0).Draw(t, "direct")
 		}
 
+	case branch == 95: // JBIG2 arithmetic symbol dictionary refining single symbols (SDREFAGG=1, REFAGGNINST=1)
+		c.Origin = "jbig2-symdict-refagg"
+		numIn := rapid.IntRange(1, 3).Draw(t, "numin")
+		numNew := rapid.IntRange(1, 6).Draw(t, "numnew")
+		at := rapid.IntRange(0, numNew-1).Draw(t, "at") // the new symbol with the interesting reference
+		cap := numIn + numNew
+		own := numIn + at
+		target := rapid.SampledFrom([]string{"earlier", "own", "own", "next", "next", "last-slot", "capacity", "capacity+1", "huge"}).Draw(t, "target")
+		var id int
+		switch target {
+		case "earlier":
+			id = rapid.IntRange(0, own-1).Draw(t, "id")
+		case "own":
+			id = own
+		case "next":
+			id = own + 1
+		case "last-slot":
+			id = cap - 1
+		case "capacity":
+			id = cap
+		case "capacity+1":
+			id = cap + 1
+		default:
+			id = 1<<30 - 1
+		}
+		var truncated bool
+		body, id, truncated = refAggDictStream(numIn, numNew, at, id, rapid.IntRange(0, 2).Draw(t, "rdx")-1)
+		switch {
+		case truncated:
+			c.Tags = []string{"jbig2-symdict/refagg-id-does-not-fit-code-length"}
+		case id >= own && id < cap:
+			c.Tags = []string{"jbig2-symdict/refagg-forward-or-self-reference"}
+		case id >= cap:
+			c.Tags = []string{"jbig2-symdict/refagg-id-beyond-capacity"}
+		default:
+			c.Tags = []string{"jbig2-symdict/refagg-valid-reference"}
+		}
+		if rapid.IntRange(0, 5).Draw(t, "mut") == 0 {
+			c.Origin = "jbig2-symdict-refagg-mutated"
+			c.Tags = nil
+			body = mutateBody(body, rapid.Uint64().Draw(t, "mseed"), 1, nil)
+		}
+		setChain([]string{"JBIG2Decode"}, nil)
+		c.Direct = rapid.IntRange(-1, 0).Draw(t, "direct")
+
 	case branch == 94: // JBIG2 Huffman symbol dictionary, one aggregate symbol per height class
 		c.Origin = "jbig2-symdict"
 		n := rapid.SampledFrom([]int{2000, 3000, 4000}).Draw(t, "nsyms")
@@ -2138,4 +2183,247 @@ func symDictAggStream(n int) []byte {
 	out = append(out, sd...)
 	out = jbig2.WriteSegmentHeader(out, 2, 48, 1, nil, uint32(len(page)))
 	return append(out, page...)
+}
+
+// ---------------------------------------------------------------------------
+// arithmetic coding for the generator: an MQ encoder (T.88 Annex E, the
+// encoder flow charts), the integer encoding procedure of Annex A.2 and the
+// IAID procedure of A.3, written for the harness.  The library's encoder is
+// not exported; only the decoder is under test.
+
+type mqQe struct {
+	qe         uint32
+	nmps, nlps uint8
+	sw         bool
+}
+
+var mqQeTable = [47]mqQe{
+	{0x5601, 1, 1, true}, {0x3401, 2, 6, false}, {0x1801, 3, 9, false}, {0x0AC1, 4, 12, false}, {0x0521, 5, 29, false},
+	{0x0221, 38, 33, false}, {0x5601, 7, 6, true}, {0x5401, 8, 14, false}, {0x4801, 9, 14, false}, {0x3801, 10, 14, false},
+	{0x3001, 11, 17, false}, {0x2401, 12, 18, false}, {0x1C01, 13, 20, false}, {0x1601, 29, 21, false}, {0x5601, 15, 14, true},
+	{0x5401, 16, 14, false}, {0x5101, 17, 15, false}, {0x4801, 18, 16, false}, {0x3801, 19, 17, false}, {0x3401, 20, 18, false},
+	{0x3001, 21, 19, false}, {0x2801, 22, 19, false}, {0x2401, 23, 20, false}, {0x2201, 24, 21, false}, {0x1C01, 25, 22, false},
+	{0x1801, 26, 23, false}, {0x1601, 27, 24, false}, {0x1401, 28, 25, false}, {0x1201, 29, 26, false}, {0x1101, 30, 27, false},
+	{0x0AC1, 31, 28, false}, {0x09C1, 32, 29, false}, {0x08A1, 33, 30, false}, {0x0521, 34, 31, false}, {0x0441, 35, 32, false},
+	{0x02A1, 36, 33, false}, {0x0221, 37, 34, false}, {0x0141, 38, 35, false}, {0x0111, 39, 36, false}, {0x0085, 40, 37, false},
+	{0x0049, 41, 38, false}, {0x0025, 42, 39, false}, {0x0015, 43, 40, false}, {0x0009, 44, 41, false}, {0x0005, 45, 42, false},
+	{0x0001, 45, 43, false}, {0x5601, 46, 46, false},
+}
+
+type mqCx struct{ i, mps uint8 }
+
+type mqEnc struct {
+	a, c uint32
+	ct   int
+	b    byte // the byte being assembled
+	have bool // b is a real byte (false: the imaginary byte before the first)
+	out  []byte
+}
+
+func newMQEnc() *mqEnc { return &mqEnc{a: 0x8000, ct: 12} }
+
+func (e *mqEnc) byteOut() {
+	emit := func(v byte) {
+		if e.have {
+			e.out = append(e.out, e.b)
+		}
+		e.b, e.have = v, true
+	}
+	if e.have && e.b == 0xff {
+		emit(byte(e.c >> 20))
+		e.c &= 0xfffff
+		e.ct = 7
+		return
+	}
+	if e.c >= 0x8000000 {
+		e.b++ // carry (never happens on the imaginary byte: C < 2^27 then)
+		e.c &= 0x7ffffff
+		if e.b == 0xff {
+			emit(byte(e.c >> 20))
+			e.c &= 0xfffff
+			e.ct = 7
+			return
+		}
+	}
+	emit(byte(e.c >> 19))
+	e.c &= 0x7ffff
+	e.ct = 8
+}
+
+func (e *mqEnc) renorm() {
+	for {
+		e.a <<= 1
+		e.c <<= 1
+		e.ct--
+		if e.ct == 0 {
+			e.byteOut()
+		}
+		if e.a&0x8000 != 0 {
+			return
+		}
+	}
+}
+
+func (e *mqEnc) encode(cx *mqCx, d int) {
+	q := mqQeTable[cx.i]
+	e.a -= q.qe
+	if uint8(d) == cx.mps {
+		if e.a&0x8000 == 0 {
+			if e.a < q.qe {
+				e.a = q.qe
+			} else {
+				e.c += q.qe
+			}
+			cx.i = q.nmps
+			e.renorm()
+		} else {
+			e.c += q.qe
+		}
+		return
+	}
+	if e.a < q.qe {
+		e.c += q.qe
+	} else {
+		e.a = q.qe
+	}
+	if q.sw {
+		cx.mps = 1 - cx.mps
+	}
+	cx.i = q.nlps
+	e.renorm()
+}
+
+func (e *mqEnc) flush() []byte {
+	t := e.c + e.a
+	e.c |= 0xffff
+	if e.c >= t {
+		e.c -= 0x8000
+	}
+	e.c <<= uint(e.ct)
+	e.byteOut()
+	e.c <<= uint(e.ct)
+	e.byteOut()
+	out := e.out
+	if e.have {
+		out = append(out, e.b)
+	}
+	if len(out) == 0 || out[len(out)-1] != 0xff {
+		out = append(out, 0xff)
+	}
+	return append(out, 0xac)
+}
+
+// mqInt is the context array of one integer decoding procedure (A.2).
+type mqInt [512]mqCx
+
+func (x *mqInt) bit(e *mqEnc, prev *int, d int) {
+	e.encode(&x[*prev], d)
+	if *prev < 256 {
+		*prev = *prev<<1 | d
+	} else {
+		*prev = (*prev<<1|d)&511 | 256
+	}
+}
+
+func (x *mqInt) encode(e *mqEnc, v int64) {
+	prev := 1
+	s := 0
+	if v < 0 {
+		s, v = 1, -v
+	}
+	x.bit(e, &prev, s)
+	ranges := []struct {
+		low  int64
+		bits int
+	}{{0, 2}, {4, 4}, {20, 6}, {84, 8}, {340, 12}, {4436, 32}}
+	for k, r := range ranges {
+		last := k == len(ranges)-1
+		if !last && v >= ranges[k+1].low {
+			x.bit(e, &prev, 1)
+			continue
+		}
+		if !last {
+			x.bit(e, &prev, 0)
+		}
+		for j := r.bits - 1; j >= 0; j-- {
+			x.bit(e, &prev, int((v-r.low)>>uint(j)&1))
+		}
+		return
+	}
+}
+
+// mqIAID encodes a symbol ID of codeLen bits (A.3).
+func mqIAID(e *mqEnc, cx []mqCx, codeLen, id int) {
+	prev := 1
+	for j := codeLen - 1; j >= 0; j-- {
+		d := id >> uint(j) & 1
+		e.encode(&cx[prev], d)
+		prev = prev<<1 | d
+	}
+}
+
+// refAggDictStream builds an embedded JBIG2 stream: a 32x32 page, a
+// dictionary of numIn 8x8 symbols (library helper), and an arithmetic-coded
+// dictionary with SDREFAGG=1 which imports it and declares numNew new 8x8
+// symbols, each a single-instance refinement (REFAGGNINST=1).  Symbol number
+// at refines the symbol with the given ID, the others refine symbol 0.  The
+// ID is coded with ceil(log2(numIn+numNew)) bits; an ID which does not fit is
+// cut to that many bits (the returned id is what was really coded).  All
+// symbols are blank, which makes the refinement bitmaps trivial to code.
+func refAggDictStream(numIn, numNew, at, id, rdx int) (body []byte, coded int, truncated bool) {
+	codeLen := 1
+	for 1<<codeLen < numIn+numNew {
+		codeLen++
+	}
+	coded = id & (1<<codeLen - 1)
+	truncated = coded != id
+
+	// blank symbols: refining a blank symbol into a blank symbol decides 0
+	// for every pixel under the all-zero context, so one context suffices to
+	// keep the coder in step with the decoder across the refinement bitmaps
+	var in []*bitmap.Bitmap
+	for i := 0; i < numIn; i++ {
+		in = append(in, bitmap.New(8, 8))
+	}
+	sd1 := jbig2.EncodeSymbolDictSegment(in, 1)
+
+	flags := uint16(0x0002 | 1<<10 | 1<<12) // SDREFAGG, SDTEMPLATE=1, SDRTEMPLATE=1
+	sd2 := []byte{byte(flags >> 8), byte(flags), 3, 0xff}
+	sd2 = append(sd2, be32(uint32(numIn+numNew))...)
+	sd2 = append(sd2, be32(uint32(numNew))...)
+	e := newMQEnc()
+	var iadh, iadw, iaai, iardx, iardy, iaex mqInt
+	var gr mqCx
+	iaid := make([]mqCx, 1<<codeLen)
+	iadh.encode(e, 8)
+	for i := 0; i < numNew; i++ {
+		dw := int64(0)
+		if i == 0 {
+			dw = 8
+		}
+		iadw.encode(e, dw)
+		iaai.encode(e, 1)
+		ref := 0
+		if i == at {
+			ref = coded
+		}
+		mqIAID(e, iaid, codeLen, ref)
+		iardx.encode(e, int64(rdx))
+		iardy.encode(e, 0)
+		for px := 0; px < 64; px++ {
+			e.encode(&gr, 0)
+		}
+	}
+	iaex.encode(e, int64(numIn))  // export flags: the imported symbols are not exported,
+	iaex.encode(e, int64(numNew)) // the new ones are
+	sd2 = append(sd2, e.flush()...)
+
+	pi := jbig2.WritePageInfo(nil, 32, 32)
+	body = jbig2.WriteSegmentHeader(nil, 0, 48, 1, nil, uint32(len(pi)))
+	body = append(body, pi...)
+	body = jbig2.WriteSegmentHeader(body, 1, 0, 1, nil, uint32(len(sd1)))
+	body = append(body, sd1...)
+	body = jbig2.WriteSegmentHeader(body, 2, 0, 1, []uint32{1}, uint32(len(sd2)))
+	body = append(body, sd2...)
+	return body, coded, truncated
 }
